@@ -181,5 +181,11 @@ func init() {
 	for _, c := range []string{"C09", "C07", "C10"} {
 		register(c, "", ruleAssertedErrorNil)
 	}
+	// round 10
+	register("C01", "", ruleCountCheck) // a short answer must be refused, or a step's fields vanish from the data without an error
+	register("C09", "", ruleRequestContextSent)
+	register("C07", "", ruleRequestContextSent)
+	register("C05", "", ruleMergeGlobalState)
+	register("C04", "", ruleMergeGlobalState)
 	register("X6", "debug: R6 over whole module", ruleErr(errScope{label: "all", pkgs: []string{"pebbles", "common", "executor", "format", "gqlerrors", "introspection", "merger", "planner", "queryer", "requests"}}))
 }
